@@ -187,7 +187,7 @@ class ReadTagFragmentedRequestPacket(ReadTagRequestPacket):
         offset=0,
     ) -> "ReadTagFragmentedRequestPacket":
         new_request = cls(
-            next(sequence),
+            sequence,
             request.tag,
             request.elements,
             request.tag_info,
@@ -314,7 +314,7 @@ class WriteTagFragmentedRequestPacket(WriteTagRequestPacket):
         value: bytes = b"",
     ) -> "WriteTagFragmentedRequestPacket":
         new_request = cls(
-            next(sequence),
+            sequence,
             request.tag,
             request.elements,
             request.tag_info,
